@@ -17,7 +17,7 @@ import subprocess
 
 import repo_check as rc
 
-ORACLES = [rc.o6_methods]
+ORACLES = [rc.o6_methods, rc.o6_method_sticks]
 RESTORE = dict()
 
 FIXED_NAMES = ['a.txt', '.a.txt.xvc-tmp', 'model.bin', 'model.json', 'model', 'm.b', 'm.j', '.hidden', '.hidden.cfg', 'archive.tar.gz', 'archive.tar.xz',
@@ -280,7 +280,7 @@ def tmp_streams(chk):
 
 
 def run(chk):
-    return rc.run_property(chk, 'C17', ORACLES, restore=RESTORE, extra_props=['XvcRepo.Props.C17Cmd'], before_finish=lambda: tmp_streams(chk))
+    return rc.run_property(chk, 'C17', ORACLES, restore=RESTORE, extra_props=['XvcRepo.Props.C17Cmd', 'XvcRepo.Props.C17Sticks'], before_finish=lambda: tmp_streams(chk))
 
 
 def replay(chk, data):
